@@ -137,7 +137,7 @@ func (c *V2) Do(op Op) (out Outcome) {
 		_, err := c.C.PutItem(ctx, in)
 		return fin(err)
 	case OpGet:
-		in := &v2ddb.GetItemInput{TableName: aws.String(op.Table), Key: ItemToV2(op.Key)}
+		in := &v2ddb.GetItemInput{TableName: aws.String(op.Table), Key: ItemToV2(op.Key), ProjectionExpression: strp(op.Proj), ExpressionAttributeNames: op.Names}
 		res, err := c.C.GetItem(ctx, in)
 		o := fin(err)
 		if err == nil {
@@ -181,7 +181,7 @@ func (c *V2) Do(op Op) (out Outcome) {
 		}
 		return o
 	case OpQuery:
-		in := &v2ddb.QueryInput{TableName: aws.String(op.Table), FilterExpression: strp(op.Filter),
+		in := &v2ddb.QueryInput{TableName: aws.String(op.Table), FilterExpression: strp(op.Filter), ProjectionExpression: strp(op.Proj),
 			ExpressionAttributeNames: op.Names, ExpressionAttributeValues: ItemToV2(op.Values), IndexName: strp(op.Index),
 			ExclusiveStartKey: ItemToV2(op.Start)}
 		if !op.NoKC {
@@ -206,7 +206,7 @@ func (c *V2) Do(op Op) (out Outcome) {
 		}
 		return o
 	case OpScan:
-		in := &v2ddb.ScanInput{TableName: aws.String(op.Table), FilterExpression: strp(op.Filter),
+		in := &v2ddb.ScanInput{TableName: aws.String(op.Table), FilterExpression: strp(op.Filter), ProjectionExpression: strp(op.Proj),
 			ExpressionAttributeNames: op.Names, ExpressionAttributeValues: ItemToV2(op.Values), IndexName: strp(op.Index),
 			ExclusiveStartKey: ItemToV2(op.Start)}
 		if op.Limit > 0 {
